@@ -131,6 +131,56 @@ def check_filenames():
     return cases, failures, [{'files_created_before_each_poll': schedules[5]}]
 
 
+def check_flatten():
+    """C01 / C10 / C04: the real flatten node on every batch of <= 4 pieces over {0, 1, 'a'} (repeats of the same object
+    included), a tuple / list / generator as the batch, with and without metadata carrying a RefCounter: the pieces are delivered
+    one by one in order, the batch's metadata (and with it the reference) travels with the LAST piece only, and the counter is
+    back at its initial value afterwards."""
+    import itertools
+    from streamz import Stream
+    from streamz.core import RefCounter
+    cases, failures = 0, []
+    alphabet = [0, 1, 'a']
+    for n in range(0, 5):
+        for pieces in itertools.product(alphabet, repeat=n):
+            for kind in ('list', 'tuple', 'generator'):
+                for with_md in (False, True):
+                    cases += 1
+                    src = Stream()
+                    got, got_md, counts = [], [], []
+                    rc = RefCounter(initial=1)
+
+                    def rec(x, metadata=None, got=got, got_md=got_md, counts=counts, rc=rc):
+                        got.append(x)
+                        got_md.append(list(metadata) if metadata else [])
+                        counts.append(rc.count)
+                    node = src.flatten()
+                    from streamz.core import Stream as S
+
+                    class Rec(S):
+                        def update(self, x, who=None, metadata=None):
+                            rec(x, metadata)
+                    keep = Rec(node)        # downstreams are weak references: keep the recorder alive
+                    batch = list(pieces) if kind == 'list' else tuple(pieces) if kind == 'tuple' else (p for p in pieces)
+                    md = [{'ref': rc, 'id': 7}] if with_md else None
+                    try:
+                        src.emit(batch, metadata=md)
+                        err = None
+                    except Exception as e:
+                        err = '%s: %s' % (type(e).__name__, e)
+                    want_md = [[] for _ in pieces]
+                    if pieces and with_md:
+                        want_md[-1] = md
+                    ok = err is None and got == list(pieces) and got_md == want_md and rc.count == 1
+                    if not ok:
+                        failures.append({'op': 'flatten.update', 'batch': repr(list(pieces)), 'batch_type': kind, 'with_metadata': with_md,
+                                         'delivered': repr(got), 'delivered_metadata': repr([[m.get('id') for m in ml] for ml in got_md]),
+                                         'counter_after': rc.count, 'exception': err})
+                        if len(failures) >= 3:
+                            return cases, failures, [{'batch': [0, 1, 0]}]
+    return cases, failures, [{'batch': [0, 1, 0]}]
+
+
 def main():
     pid, tier = sys.argv[1], sys.argv[2]
     repo = sys.argv[4] if len(sys.argv) > 4 else '/repo'
@@ -141,6 +191,14 @@ def main():
         c, f, s = check_pack_literals(n)
         out.update({'cases': c, 'distinct': c, 'failures': f, 'samples': s, 'ops': ['zip.pack_literals', 'zip with literals (end to end)'],
                     'space': 'every arrangement of stream / literal arguments of zip with total length <= %d' % n})
+    if pid in ('C01', 'C10', 'C04'):
+        c, f, smp = check_flatten()
+        out['cases'] += c
+        out['distinct'] = out.get('distinct', 0) + c
+        out['failures'] = out['failures'] + f
+        out['samples'] = out['samples'] + smp
+        out['ops'] = out['ops'] + ['flatten.update']
+        out['space'] = (out['space'] + '; ' if out['space'] else '') + 'flatten: every batch of <= 4 pieces over {0, 1, "a"} as list / tuple / generator, with and without a reference-counted metadata entry'
     if pid in ('C13', 'C08'):
         c, f, smp = check_convert_interval()
         out.update({'cases': c, 'distinct': c, 'failures': f, 'samples': smp, 'ops': ['convert_interval'],
